@@ -815,7 +815,9 @@ var natives = map[string]extFn{
 		}
 		v, ok := e.mParseFloat(a[0])
 		if !ok {
-			return tuple{float64(0), mkError("strconv.ParseFloat: invalid syntax or out of range")}
+			// (a range error comes with the infinite value, as in the real function)
+			fv, _ := v.(float64)
+			return tuple{fv, mkError("strconv.ParseFloat: invalid syntax or out of range")}
 		}
 		return tuple{v, iface{}}
 	},
